@@ -58,6 +58,16 @@ RULE = (
     "release done by take/first); same clauses (a)-(e); a work item that a run loop already active at dispose starts "
     "later is never a 'tail'. Non-trivial there: the callback was an on_next and something followed it in the "
     "undisturbed run ('cut'). "
+    "Dispose issued by the pipeline's own user code ('ucb' points): for up to 8 (16 thorough) (slot, k) pairs of the "
+    "reference run's callback log - teardown actions (finally_action) first, then mappers, predicates, factories ... - "
+    "the subscriber's dispose() is called from inside the k-th invocation of that user callback (k < 3), i.e. also "
+    "re-entrantly while an operator is disposing / replacing a subscription; same clauses; while a library dispose() "
+    "or subscribe() is in progress on the stack, clause (c) is required when the stack has unwound, and deliveries to "
+    "observers wired by a subscribe() still in progress are excused. Family 'teardown' puts user teardown code on the "
+    "subscription an operator replaces: finally_action before timeout(d, other)/retry/repeat/catch/"
+    "on_error_resume_next/take_until/switch_map/amb/delay_subscription/subscribe_on, and local variants of switch_map, "
+    "throttle_with_mapper, window_when and timeout_with_mapper whose inner/duration/closing observables carry a "
+    "finally_action. "
     "Inner subscriptions as the judged subscription: in every run (and in extra runs that dispose the j-th inner "
     "group/window subscriber, j < 3 (4 thorough), as the last action of up to 4 (8) instants of its life) an inner probe "
     "gets no notification after its own dispose() returned, and when the outer subscriber had already ended and no "
@@ -79,6 +89,7 @@ ASSUMPTIONS = [
 MAX_INSTANTS = 14
 MAX_CB = 10
 MAX_INNER = 3
+MAX_UCB = 8
 MAX_INNER_INSTANTS = 4
 REQUEUE_LIMIT = 30
 
@@ -104,6 +115,8 @@ def run_variant(case, variant, make):
 
     if kind == "first":
         lab.at(variant[1], disposer)
+    if kind == "ucb":
+        lab.dispose_in = (variant[1], variant[2])
     try:
         o = make(lab)
         p = DProbe(lab, "p", inner=case["inner"], dispose_at_cb=variant[1] if kind == "cb" else None)
@@ -275,6 +288,16 @@ def dispose_points(lab0, p0):
             out.append([pos, t])
     for k in range(min(len(p0.events), MAX_CB)):
         out.append(["cb", k])
+    # dispose issued by the pipeline's own user code (teardown action, mapper, predicate, factory ...): k-th call of a slot
+    counts = {}
+    for e in lab0.cb_log:
+        counts[e[2]] = counts.get(e[2], 0) + 1
+    slots = sorted(counts, key=lambda sl: (0 if "finally_action" in sl else 1))  # stable: order of first use otherwise
+    ucb = []
+    for sl in slots:
+        for k in range(min(counts[sl], 3)):
+            ucb.append(["ucb", sl, k])
+    out += ucb[:MAX_UCB]
     for j, q in enumerate(all_inners(p0)[:MAX_INNER]):
         if q.raw or q.sub_tick is None:
             continue
@@ -371,6 +394,84 @@ def _run(case):
 def _run_gbu(case):
     """group_by_until whose duration observable is derived from the group it is given (see props/C02.py)."""
     return run_case(case, make_gbu(case), case["pipe"])
+
+
+# ---------------------------------------------------------------------------------------
+# user teardown code on the subscription that an operator replaces (local operator variants; the shared grammar's
+# inner/duration/closing observables are raw sources without teardown)
+
+TD_LOCAL = ("switch_map_fin", "throttle_mapper_fin", "window_when_fin", "timeout_mapper_fin")
+
+
+def _build_td_op(B, name, a):
+    B._owner = B.opi
+    B.cur = name
+    owner = B._owner
+    fin = B.fn("inner_finally", lambda: None)
+    specs = a["os"]
+
+    def inner(*xs):
+        return B._mk(specs[B.h(*xs) % len(specs)], owner, True).pipe(ops.finally_action(fin))
+
+    if name == "switch_map_fin":
+        o = ops.switch_map(B.fn("mapper", inner))
+    elif name == "throttle_mapper_fin":
+        o = ops.throttle_with_mapper(B.fn("throttle_duration_mapper", inner))
+    elif name == "timeout_mapper_fin":
+        o = ops.timeout_with_mapper(None, B.fn("timeout_duration_mapper", inner), B._mk(a["o"], owner, False))
+    elif name == "window_when_fin":
+        cnt = [0]
+
+        def closing():
+            cnt[0] += 1
+            return inner(cnt[0])
+
+        o = ops.window_when(B.fn("closing_mapper", closing))
+    else:
+        raise AssertionError(name)
+    B.opi += 1
+    return o
+
+
+def make_td(case):
+    pc = case["pipe"]
+
+    def make(lab):
+        B = OBuilder(lab)
+        o = B.build_root(pc["root"])
+        for name, args in pc["ops"]:
+            o = (_build_td_op(B, name, args) if name in TD_LOCAL else B.build_op(name, args))(o)
+        return o
+
+    return make
+
+
+def _run_td(case):
+    r = run_case(case, make_td(case), case["pipe"])
+    r.classes = tuple(r.classes) + ("teardown:" + "+".join(n for n, _ in case["pipe"]["ops"] if n in TD_LOCAL or n in ("timeout", "finally_action")),)
+    return r
+
+
+def cases_teardown():
+    from vlib.pipes import s_inners, s_src
+    from props.C02 import inner_policies, s_clock
+
+    src = st.fixed_dictionaries({"kind": st.sampled_from(["cold", "hot", "cold"]), "tl": timelines(max_len=5, max_dt=3, min_len=1, terminal=(None, "C", "E"))})
+    pre = st.lists(st.sampled_from(["map", "filter", "do_action"]).flatmap(lambda n: st.tuples(st.just(n), OPS[n].args).map(list)), max_size=1)
+    replacer = st.one_of(
+        st.tuples(st.integers(1, 4), s_src(("cold", "cold", "hot"))).map(lambda t: [["finally_action", {}], ["timeout", {"d": t[0], "o": t[1]}]]),
+        s_inners().map(lambda os_: [["switch_map_fin", {"os": os_}]]),
+        s_inners().map(lambda os_: [["throttle_mapper_fin", {"os": os_}]]),
+        s_inners().map(lambda os_: [["window_when_fin", {"os": os_}]]),
+        st.tuples(s_inners(), s_src(("cold", "cold", "hot"))).map(lambda t: [["timeout_mapper_fin", {"os": t[0], "o": t[1]}]]),
+        st.sampled_from(["retry", "repeat", "catch", "on_error_resume_next", "take_until", "switch_map", "amb", "delay_subscription", "subscribe_on"]).flatmap(
+            lambda n: OPS[n].args.map(lambda a: [["finally_action", {}], [n, a]])
+        ),
+    )
+    tail = st.lists(st.sampled_from(["map", "observe_on", "take", "finally_action"]).flatmap(lambda n: st.tuples(st.just(n), OPS[n].args).map(list)), max_size=1)
+    return st.fixed_dictionaries({"src": src, "pre": pre, "rep": replacer, "tail": tail, "inner": inner_policies(), "clock": s_clock}).map(
+        lambda c: {"pipe": {"root": {"f": "single", "srcs": [c["src"]]}, "ops": c["pre"] + c["rep"] + c["tail"]}, "inner": c["inner"], "clock": c["clock"]}
+    )
 
 
 # ---------------------------------------------------------------------------------------
@@ -640,14 +741,15 @@ def _tramp_cases(max_depth=2, max_ops=3):
 
 
 def checks(tier):
-    global MAX_INSTANTS, MAX_CB, MAX_INNER, MAX_INNER_INSTANTS
+    global MAX_INSTANTS, MAX_CB, MAX_INNER, MAX_INNER_INSTANTS, MAX_UCB
     q = tier == "quick"
-    MAX_INSTANTS, MAX_CB, MAX_INNER, MAX_INNER_INSTANTS = (14, 10, 3, 4) if q else (24, 16, 4, 8)
+    MAX_INSTANTS, MAX_CB, MAX_INNER, MAX_INNER_INSTANTS, MAX_UCB = (14, 10, 3, 4, 8) if q else (24, 16, 4, 8, 16)
     return [
         Check("pipelines", _run, strategy=cases(4 if q else 6), examples={"quick": 320, "thorough": 16 * 1000}, shards={"quick": 8, "thorough": 16}),
         Check("inners", _run, strategy=cases_inner(4 if q else 6), examples={"quick": 320, "thorough": 16 * 1000}, shards={"quick": 8, "thorough": 16}),
         Check("enders", _run, strategy=cases_forced(3 if q else 5), examples={"quick": 200, "thorough": 16 * 600}, shards={"quick": 8, "thorough": 16}),
         Check("gbu_self", _run_gbu, strategy=cases_gbu(), examples={"quick": 120, "thorough": 16 * 600}, shards={"quick": 8, "thorough": 16}),
+        Check("teardown", _run_td, strategy=cases_teardown(), examples={"quick": 240, "thorough": 16 * 600}, shards={"quick": 8, "thorough": 16}),
         Check("trampoline", _run_tramp, strategy=_tramp_cases(2, 3 if q else 5), examples={"quick": 1200, "thorough": 16 * 3000}, shards={"quick": 8, "thorough": 16}),
         Check("factories", _run_factories, strategy=_factory_cases(), examples={"quick": 200, "thorough": 16 * 600}, shards={"quick": 8, "thorough": 16}),
     ]
